@@ -87,7 +87,15 @@ def _boundary_budgets():
         hm = int(Fraction(n) / H)
         if hm in want and want[hm] is None and n >= 10:
             want[hm] = n + 2
-    return [v for v in want.values() if v]
+    out = [v for v in want.values() if v]
+    H = Fraction(0)
+    near = []
+    for n in range(1, 700):
+        H += Fraction(1, n)
+        q = Fraction(n) / H
+        if n >= 10 and q - int(q) > Fraction(97, 100):      # an approximation of H_n that is slightly too small flips h_max here
+            near.append(n)
+    return out[:3] + near[:6] + out[3:]
 
 
 BOUNDARY_N = _boundary_budgets()
@@ -102,8 +110,8 @@ def random_cfgs(tier, base_id, neg=False):
         D = rnd.choice([1, 1, 2]) if kind != "dbin" else rnd.choice([1, 2])
         box = rnd.choice([b for b in PC.BOXES if len(b) == D])
         n = rnd.choice([10, 30, 60, 100, 200]) if tier == "quick" else rnd.choice([10, 17, 40, 100, 250, 600, 1000])
-        if rep % 4 == 3:
-            n = rnd.choice(BOUNDARY_N if tier != "quick" else BOUNDARY_N[:3])
+        if rep % 3 == 2:
+            n = rnd.choice(BOUNDARY_N if tier != "quick" else BOUNDARY_N[:7])
         i += 1
         cfgs.append({"id": i, "algo": "SequOOL", "kind": kind, "K": Kk, "D": D, "box": box, "n": n, "T": n, "prm": {}, "pattern": rnd.choice(["g01", "peak", "flat", "tied", "gneg", "const"]),
                      "shift": rnd.choice([0, 0, -1, -2]) if not neg else rnd.choice([-1, -2]), "seed": rnd.randrange(1 << 30), "queries": sorted(rnd.sample(range(2, n), 2)) if rep % 3 == 0 else []})
@@ -116,6 +124,12 @@ def sources(chk, tier, own, invs, props, neg=False):
     trs = [t for t in S.pmap(SS.run_soo, cfgs) if "skipped" not in t]
     chk.validate("Trace_Seq.tla", "Trace_Seq.cfg", trs, "seqreplay", own=own, nontrivial=lambda t: F.count_mk(t) >= 1)
     chk.notes["seq_replay"] = {"reward_sequences": len(trs), "implementation_run_is_literally_one_of_the_enumerated_behaviours": sum(1 for t in trs if observed(t) in expected[t["id"]])}
+    for t in trs:
+        if observed(t) not in expected[t["id"]]:
+            path = os.path.join(C.OUT, "replay", "%s_replaydiff_%s.json" % (chk.prop, t["id"]))
+            os.makedirs(os.path.dirname(path), exist_ok=True)
+            json.dump({"module": "Trace_Seq.tla", "cfg": "Trace_Seq.cfg", "verdict": ["replay.not-an-enumerated-behaviour", 0], "trace": t}, open(path, "w"))
+            chk.violations.append(({"id": t["id"], "source": "replay", "clause": "replay.not-an-enumerated-behaviour", "algo": "SequOOL"}, path))
     trs = [t for t in S.pmap(SS.run_soo, random_cfgs(tier, 1700000, neg)) if "skipped" not in t]
     chk.validate("Trace_Seq.tla", "Trace_Seq.cfg", trs, "seqgrid", own=own, nontrivial=lambda t: F.count_mk(t) >= 3)
     return trs
